@@ -337,7 +337,7 @@ func (r *RootAssertionNode) ParseExprAsProducer(expr ast.Expr, doNotTrack bool) 
 			// non-builtin funcs
 			if !doNotTrack && litArgs() {
 				return TrackableExpr{&funcAssertionNode{
-					decl: r.ObjectOf(fun).(*types.Func), args: expr.Args, call: expr}}, nil
+					decl: r.ObjectOf(fun).(*types.Func), args: expr.Args, call: r.sourceCall(expr)}}, nil
 			}
 			// function call has non-literal args, so is not literal, use its return annotation
 			// alternatively, doNotTrack was set
@@ -364,11 +364,11 @@ func (r *RootAssertionNode) ParseExprAsProducer(expr ast.Expr, doNotTrack bool) 
 			if litArgs() {
 				if r.isPkgName(fun.X) {
 					return TrackableExpr{&funcAssertionNode{
-						decl: r.ObjectOf(fun.Sel).(*types.Func), args: expr.Args, call: expr}}, nil
+						decl: r.ObjectOf(fun.Sel).(*types.Func), args: expr.Args, call: r.sourceCall(expr)}}, nil
 				}
 				if recv, _ := r.ParseExprAsProducer(fun.X, false); recv != nil {
 					return append(recv, &funcAssertionNode{
-						decl: r.ObjectOf(fun.Sel).(*types.Func), args: expr.Args, call: expr}), nil
+						decl: r.ObjectOf(fun.Sel).(*types.Func), args: expr.Args, call: r.sourceCall(expr)}), nil
 				}
 				// receiver is not trackable, use its return annotation
 				return nil, r.getFuncReturnProducers(fun.Sel, expr)
@@ -402,7 +402,7 @@ func (r *RootAssertionNode) ParseExprAsProducer(expr ast.Expr, doNotTrack bool) 
 			// non-builtin funcs
 			if !doNotTrack && litArgs() {
 				return TrackableExpr{&funcAssertionNode{
-					decl: r.ObjectOf(funcIdent).(*types.Func), args: expr.Args, call: expr}}, nil
+					decl: r.ObjectOf(funcIdent).(*types.Func), args: expr.Args, call: r.sourceCall(expr)}}, nil
 			}
 			// function call has non-literal args, so is not literal, use its return annotation
 			// alternatively, doNotTrack was set
